@@ -24,15 +24,19 @@ fn cfg_fast() -> Cfg {
 fn cfgs() -> Vec<Cfg> {
     vec![
         cfg_fast(),
-        cfg_fast(),
+        Cfg { idle_ms: 10_000_000, ..cfg_fast() },
         Cfg { max_cached: 2, idle_ms: 10_000_000, ..cfg_fast() },
-        Cfg { max_cached: 1, swap_thr: 0.5, ..cfg_fast() },
+        Cfg { max_cached: 1, swap_thr: 0.5, idle_ms: 10_000_000, ..cfg_fast() },
         Cfg::defaults(),
         Cfg { idle_ms: 100_000_000, ..Cfg::defaults() },
     ]
 }
 
 fn check(case: &Case, obs: &mut Obs) -> CheckResult {
+    p_stack::dev_filter(check_inner(case, obs))
+}
+
+fn check_inner(case: &Case, obs: &mut Obs) -> CheckResult {
     let w = world();
     let s = sim::run(w, case, Focus::C05, obs)?;
     // ---- classification
@@ -107,7 +111,7 @@ fn case_strategy(max_ops: usize) -> impl Strategy<Value = Case> {
 }
 
 fn run_random(ctx: &Ctx) {
-    let n = ctx.tier.pick(3_000, 300_000);
+    let n = ctx.tier.pick(20_000, 1_000_000);
     let max_ops = ctx.tier.pick(30, 80);
     ctx.run_prop("histories-random", n, || case_strategy(max_ops), check);
 }
@@ -181,17 +185,17 @@ fn post(ctx: &Ctx) {
     ctx.require_label("metadata-less-path-under-metadata-policy", 300);
     ctx.require_label("send-got-path", 800);
     ctx.require_label("send-got-none", 300);
-    ctx.require_label("time-crossed-active-expiry", 100);
+    ctx.require_label("time-crossed-active-expiry", 50);
 }
 
 fn main() {
     let subs = [
-        Sub { name: "histories-random", run: run_random, replay: |c, v| c.replay_case::<Case>("histories-random", v, check) },
-        Sub { name: "histories-exhaustive-len1", run: run_exhaustive, replay: |c, v| c.replay_case::<Case>("histories-exhaustive", v, check) },
-        Sub { name: "histories-exhaustive-len2", run: |_| {}, replay: |c, v| c.replay_case::<Case>("histories-exhaustive", v, check) },
-        Sub { name: "histories-exhaustive-len3", run: |_| {}, replay: |c, v| c.replay_case::<Case>("histories-exhaustive", v, check) },
-        Sub { name: "histories-exhaustive-len4", run: |_| {}, replay: |c, v| c.replay_case::<Case>("histories-exhaustive", v, check) },
-        Sub { name: "histories-exhaustive-len5", run: |_| {}, replay: |c, v| c.replay_case::<Case>("histories-exhaustive", v, check) },
+        Sub { name: "histories-random", run: run_random, replay: |c, v| c.replay_case::<Case>("histories-random", v, |k, o| p_stack::replay_repeated(k, o, check)) },
+        Sub { name: "histories-exhaustive-len1", run: run_exhaustive, replay: |c, v| c.replay_case::<Case>("histories-exhaustive", v, |k, o| p_stack::replay_repeated(k, o, check)) },
+        Sub { name: "histories-exhaustive-len2", run: |_| {}, replay: |c, v| c.replay_case::<Case>("histories-exhaustive", v, |k, o| p_stack::replay_repeated(k, o, check)) },
+        Sub { name: "histories-exhaustive-len3", run: |_| {}, replay: |c, v| c.replay_case::<Case>("histories-exhaustive", v, |k, o| p_stack::replay_repeated(k, o, check)) },
+        Sub { name: "histories-exhaustive-len4", run: |_| {}, replay: |c, v| c.replay_case::<Case>("histories-exhaustive", v, |k, o| p_stack::replay_repeated(k, o, check)) },
+        Sub { name: "histories-exhaustive-len5", run: |_| {}, replay: |c, v| c.replay_case::<Case>("histories-exhaustive", v, |k, o| p_stack::replay_repeated(k, o, check)) },
     ];
     vcore::main(
         "C05",
